@@ -18,6 +18,12 @@ def build(tier):
             api = pi % 2
             ex = dict(CUT=3 + (pi % (len(pat) + 2))) if pi % 3 == 0 else None
             qs.append(ldpc_cycle("C07", cfg, pat, (1, 8, 13)[pi % 3], api, 1, (3, 4, 1)[pi % 3], EN, cb=(0, 3)[pi % 2], extra=ex, expect=False))
+    # a larger LDPC code with a callback handing out application buffers, on received sets where one rebuilt
+    # source symbol feeds the next equation (recursion of the iterative decoder)
+    import os
+    sd = int(os.environ.get("VERIF_SEED", "0") or 0)
+    for pi, pat in enumerate(pick(ldpc_it_chain_patterns((4, 4, 3, 1)), sd + 1, 20 if tier == "quick" else 150)):
+        qs.append(ldpc_cycle("C07", (4, 4, 3, 1), pat, (1, 8, 13)[pi % 3], 0, pi % 2, (0, 1)[pi % 2], EN, cb=(1, 3)[pi % 2], expect=False))
     # RS at the limits of GF(2^4): n = 15, ESI 0 and n-1 in play
     lim = [(RS2M, 4, 1, 14), (RS2M, 4, 4, 11)] if tier == "quick" else \
           [(RS2M, 4, 1, 14), (RS2M, 4, 7, 8), (RS2M, 4, 14, 1), (RS2M, 4, 2, 13), (RS2M, 4, 13, 2), (RS2M, 8, 1, 9), (RS2M, 8, 8, 2)]
